@@ -26,6 +26,7 @@ class ScoreOps (S : Type) where
   zero : S
   one  : S
   big  : S
+  ofNat : Nat → S
 
 /-- CPython 3.12 `sum()` on floats: start `0 + x₀`, then Neumaier-compensated accumulation. -/
 def pySumFloat : List Float → Float
@@ -50,6 +51,7 @@ instance : ScoreOps Float where
   zero := 0.0
   one := 1.0
   big := 1000000.0
+  ofNat := Float.ofNat
 
 instance : ScoreOps Int where
   add := (· + ·)
@@ -63,6 +65,7 @@ instance : ScoreOps Int where
   zero := 0
   one := 1
   big := 1000000
+  ofNat := Int.ofNat
 
 /-- A cell of the two Python tables `matrix`/`traceback`. -/
 abbrev Cell (S : Type) := S × Nat
